@@ -281,6 +281,69 @@ Fixpoint occurrences (p : prog) : nat :=
   | Class nm ms k => (match nm with Some _ => 1 | None => 0 end) + occurrences ms + occurrences k
   end.
 
+(* every name that occurs in p *)
+Fixpoint allnames (p : prog) : list Z :=
+  match p with
+  | Done => []
+  | Ref x k | PRef x k | Decl _ x k => x :: allnames k
+  | Block b k => allnames b ++ allnames k
+  | Func nm ps b k => (match nm with Some f => [f] | None => [] end) ++ allnames ps ++ allnames b ++ allnames k
+  | Arrow ps b k => allnames ps ++ allnames b ++ allnames k
+  | ArrowId x b k => x :: allnames b ++ allnames k
+  | Paren h k => allnames h ++ allnames k
+  | For h b k | Catch h b k => allnames h ++ allnames b ++ allnames k
+  | Class nm ms k => (match nm with Some c => [c] | None => [] end) ++ allnames ms ++ allnames k
+  end.
+
+
+(* ---- the larger fragment of resolution_correct: parameter default values -------------------------------------- *)
+(* names occurring in the default values of a parameter list (everything but the parameter names) *)
+Fixpoint default_names (ps : prog) : list Z :=
+  match ps with
+  | Done => []
+  | Decl _ _ k => default_names k
+  | Ref x k | PRef x k => x :: default_names k
+  | Block b k => allnames b ++ default_names k
+  | Func nm a b k => (match nm with Some f => [f] | None => [] end) ++ allnames a ++ allnames b ++ default_names k
+  | Arrow a b k => allnames a ++ allnames b ++ default_names k
+  | ArrowId x b k => x :: allnames b ++ default_names k
+  | Paren h k => allnames h ++ default_names k
+  | For h b k | Catch h b k => allnames h ++ allnames b ++ default_names k
+  | Class nm ms k => (match nm with Some c => [c] | None => [] end) ++ allnames ms ++ default_names k
+  end.
+
+(* [core_d]: as [core], and the parameter lists of functions and parenthesised arrows may have default values
+   ([pcore_d]): references and nested functions / arrows of the same fragment, provided that
+     - a default value does not mention a parameter declared later in the same list, and
+     - no default value mentions a name that the function body declares
+   (on both, /repo deviates from ECMAScript: resolution_param_defaults_refuted). *)
+Fixpoint core_d (p : prog) : bool :=
+  match p with
+  | Done => true
+  | Ref _ k => core_d k
+  | Decl d _ k => (match d with DVar | DFun | DLex => true | _ => false end) && core_d k
+  | Block b k => core_d b && core_d k
+  | Func None ps b k =>
+      pcore_d ps && disjointb (default_names ps) (vardecls b ++ lexdecls b) && core_d b && core_d k
+  | Arrow ps b k =>
+      pcore_d ps && disjointb (default_names ps) (vardecls b ++ lexdecls b) && core_d b && core_d k
+  | Catch hd b k => catch_params_only hd && disjointb (headdecls hd) (vardecls b) && core_d b && core_d k
+  | _ => false
+  end
+with pcore_d (ps : prog) : bool :=
+  match ps with
+  | Done => true
+  | Decl DParam _ k => pcore_d k
+  | Ref x k => negb (mem x (headdecls k)) && pcore_d k
+  | Func None a b k =>
+      pcore_d a && disjointb (default_names a) (vardecls b ++ lexdecls b) && core_d b
+      && disjointb (allnames a ++ allnames b) (headdecls k) && pcore_d k
+  | Arrow a b k =>
+      pcore_d a && disjointb (default_names a) (vardecls b ++ lexdecls b) && core_d b
+      && disjointb (allnames a ++ allnames b) (headdecls k) && pcore_d k
+  | _ => false
+  end.
+
 (* ---- comparing partitions -------------------------------------------------------------------- *)
 (* canonical numbering of a list by first occurrence: two lists induce the same partition of
    positions iff their canonical numberings are equal *)
